@@ -512,7 +512,7 @@ def swarm_config(r, profile="mixed"):
                      "cpu_mix": ["tiny", "small"], "stripes": ["tall", "tall", "small", "deep"],
                      "lut": ["tiny", "small"], "value": ["tiny", "tiny", "small"]}.get(profile, ["tiny", "small"]))
     return dict(fams=[f for f in FAMILIES if fams[f]], size=size, depth=r.choice([1, 2, 3, 4, 6, 8]) if size != "deep" else r.choice([2, 3, 4]),
-                branch_p=r.choice([0.0, 0.15, 0.4]), dtype=r.choices(["int8", "uint8", "int16"], [0.8, 0.12, 0.08])[0],
+                branch_p=r.choice([0.0, 0.15, 0.4]), dtype=r.choices(["int8", "uint8", "int16"], [0.72, 0.13, 0.15])[0],
                 per_axis_p=r.choice([0.0, 0.5, 1.0]), dup_names=r.random() < 0.1, extra_out_p=r.choice([0.0, 0.2]))
 
 
@@ -910,7 +910,7 @@ def gen_recipe(r, cfg=None, profile="mixed"):
             if H * f * W * f * C > 200000:
                 continue
             ac = r.random() < 0.3
-            hp = (not ac) and r.random() < 0.3
+            hp = (not ac) and r.random() < (0.55 if op == "RESIZE_BILINEAR" else 0.3)  # (the half-pixel bilinear lowering is the intricate one)
             if ac:
                 size_ = [(H - 1) * f + 1, (W - 1) * f + 1]
             else:
